@@ -75,7 +75,7 @@ def twins_oracle(rng):
     import artlib
     from sklearn.base import clone
     fails = []
-    kind = rng.choice(["Fuzzy", "Hyper", "ART2A", "SimpleARTMAP", "DualVig", "Topo", "Fusion", "DeepARTMAP", "SMART", "CVIART", "iCVIFuzzy", "ARTMAP"])
+    kind = rng.choice(["Fuzzy", "Hyper", "ART2A", "SimpleARTMAP", "DualVig", "Topo", "Fusion", "DeepARTMAP", "SMART", "CVIART", "iCVIFuzzy", "ARTMAP", "BARTMAP"])
     rho1, rho2 = 0.25, 0.75
     fz = lambda r: artlib.FuzzyART(r, 1e-3, 1.0)
     with contextlib.redirect_stdout(io.StringIO()):
@@ -85,13 +85,17 @@ def twins_oracle(rng):
               "DualVig": lambda r: artlib.DualVigilanceART(fz(r), 0.125), "Topo": lambda r: artlib.TopoART(fz(r), 0.5, 5, 2),
               "Fusion": lambda r: artlib.FusionART([fz(r), fz(0.5)], [0.5, 0.5], [2, 2]),
               "DeepARTMAP": lambda r: artlib.DeepARTMAP([fz(r), fz(0.9)]), "SMART": lambda r: artlib.SMART(artlib.FuzzyART, [r, 0.9], {"alpha": 1e-3, "beta": 1.0}),
-              "CVIART": lambda r: artlib.CVIART(fz(r), 1), "iCVIFuzzy": lambda r: iCVIFuzzyART(r, 1e-3, 1.0, 1)}[kind]
+              "CVIART": lambda r: artlib.CVIART(fz(r), 1), "iCVIFuzzy": lambda r: iCVIFuzzyART(r, 1e-3, 1.0, 1),
+              "BARTMAP": lambda r: artlib.BARTMAP(fz(r), fz(0.5), eta=0.0)}[kind]
         a, b = mk(rho1), mk(rho2)
     key = {"Fuzzy": "rho", "Hyper": "rho", "ART2A": "rho", "SimpleARTMAP": "module_a__rho", "ARTMAP": "module_a__rho", "DualVig": "base_module__rho",
-           "Topo": "rho", "Fusion": "module_0__rho", "DeepARTMAP": "module_0__rho", "SMART": "module_0__rho", "CVIART": "rho", "iCVIFuzzy": "rho"}[kind]
+           "Topo": "rho", "Fusion": "module_0__rho", "DeepARTMAP": "module_0__rho", "SMART": "module_0__rho", "CVIART": "rho", "iCVIFuzzy": "rho",
+           "BARTMAP": "module_a__rho"}[kind]
     n = 8
     X = zoo.cc_rows(rng, n, 1)
     y = np.array([rng.randrange(2) for _ in range(n)])
+    XB = np.array([[rng.randrange(0, 9) / 8 for _ in range(5)] for _ in range(5)])      # square: BARTMAP's non-square defect is C17's finding
+    XB[:, 0], XB[0, :] = np.linspace(0, 1, 5), np.linspace(0, 1, 5)
 
     def train(e):
         with contextlib.redirect_stdout(io.StringIO()), np.errstate(all="ignore"):
@@ -103,9 +107,13 @@ def twins_oracle(rng):
                 return e.fit(np.hstack([X, X]))
             if kind == "DeepARTMAP":
                 return e.fit([X, X], y)
+            if kind == "BARTMAP":
+                return e.fit(XB)
             return e.fit(X)
 
     def labels(e):
+        if kind == "BARTMAP":
+            return [int(v) for v in e.row_labels_] + [int(v) for v in e.column_labels_]
         if kind == "DeepARTMAP" or kind == "SMART":
             return np.asarray(e.labels_deep_).tolist()
         if kind in ("SimpleARTMAP", "ARTMAP"):
@@ -113,9 +121,12 @@ def twins_oracle(rng):
         return [int(v) for v in e.labels_]
     # get_params exposes the key; set_params(get_params) is a no-op
     try:
+        before = zoo.all_params(a)
         gp = a.get_params()
         if key not in gp:
             fails.append(rep(kind, "get_params-missing-nested-key", {"key": key}))
+        if zoo.all_params(a) != before:
+            fails.append(rep(kind, "get_params-changed-the-params"))
         before = zoo.all_params(a)
         a.set_params(**{k: v for k, v in gp.items() if not hasattr(v, "get_params")})
         if zoo.all_params(a) != before:
@@ -125,11 +136,20 @@ def twins_oracle(rng):
     # twins: a.set_params(rho=rho2) behaves like b constructed with rho2
     try:
         a.set_params(**{key: rho2})
-        ra = train(a); rb = train(b)
-        if ra is not a:
-            fails.append(rep(kind, "fit-does-not-return-self"))
-        if labels(a) != labels(b):
-            fails.append(rep(kind, "set_params-twin-differs-from-constructed", {"key": key}))
+
+        def attempt(e):
+            try:
+                return train(e), None
+            except Exception as ex:          # whether training is total is C04's / C17's business, not the protocol's
+                return None, type(ex).__name__
+        (ra, ea), (rb, eb) = attempt(a), attempt(b)
+        if ea != eb:
+            fails.append(rep(kind, "set_params-twin-differs-from-constructed", {"key": key, "twin": ea, "constructed": eb}))
+        elif ea is None:
+            if ra is not a:
+                fails.append(rep(kind, "fit-does-not-return-self"))
+            if labels(a) != labels(b):
+                fails.append(rep(kind, "set_params-twin-differs-from-constructed", {"key": key}))
     except Exception as e:
         fails.append(rep(kind, "twin-raises", {"error": f"{type(e).__name__}: {str(e)[:80]}"}))
     # the estimator's OWN hyper-parameters (not routed to a nested module): value visible through get_params and
